@@ -10,7 +10,7 @@
 EXTENDS BlockQueue, Json
 
 CONSTANTS Depth, WitnessKind
-VARIABLE hist
+VARIABLES hist, wt
 
 RingSeq == [k \in 1..Cap |-> ring[k - 1]]
 Snap == [a |-> last.a, p |-> last.p, i |-> last.i, h |-> chainH, len |-> len, lq |-> lastQ, ring |-> RingSeq]
@@ -29,11 +29,17 @@ Witness ==
       [] WitnessKind = "replaced"    -> rpc = "lock2" /\ ring[Pos(rh + 1)] # rb
       [] WitnessKind = "failadd"     -> rpc = "add" /\ rb # chainH + 1
 
-SimInit == Init /\ hist = << Header >>
+SimInit == Init /\ hist = << Header >> /\ wt = 0
+\* tlc -simulate picks uniformly among successor STATES: the dummy variable wt multiplies the successors
+\* reached by the runner (x4) and by calls in flight (x3), so that behaviours are not dominated by the
+\* many ways of starting a Put
+Weighted == \/ wt' = 0 /\ Next
+            \/ wt' \in 1..3 /\ RunnerStep
+            \/ wt' \in 1..2 /\ \E p \in Procs : InFlight(p)
 SimNext == /\ ~Witness
-           /\ IF WakeEnabled THEN RunWake ELSE Next
+           /\ IF WakeEnabled THEN RunWake /\ wt' = 0 ELSE Weighted
            /\ hist' = Append(hist, Snap')
-SimSpec == SimInit /\ [][SimNext]_<<vars, hist>>
+SimSpec == SimInit /\ [][SimNext]_<<vars, hist, wt>>
 
 Terminal == ~WakeEnabled /\ ~ENABLED Next
 Emit == \/ ~(Len(hist) = Depth \/ (Len(hist) < Depth /\ (Witness \/ (WitnessKind = "none" /\ Terminal))))
